@@ -287,58 +287,63 @@ func classify(c Case) {
 	}
 }
 
+func periodsProp(t *rapid.T) {
+	n := nowGen.Draw(t, "now")
+	c := Case{NowUnix: n[0], NowNanos: n[1], ZoneSecs: int(n[2]), Relative: rapid.Bool().Draw(t, "relative"), Valid: true}
+	if rapid.IntRange(0, 2).Draw(t, "processzone") == 0 {
+		// Asia/Shanghai, US west coast, India (half hour), Nepal (quarter hour), the date line, and a shift of months
+		c.LocalSecs = rapid.SampledFrom([]int{8 * 3600, -8 * 3600, 19800, 20700, 14 * 3600, -12 * 3600, 1, -1, 150 * 86400, -150 * 86400}).Draw(t, "localsecs")
+		rec.Class("process_time_zone_not_utc")
+	}
+	switch rapid.IntRange(0, 11).Draw(t, "durclass") {
+	case 0:
+		c.Valid = false
+		c.Dur = rapid.SampledFrom([]string{"", "1d", "abc", "1h-", "h", "1", "--1s", "1w", "1h 30m", "１s", " 1s", "1.2.3s"}).Draw(t, "bad")
+	case 1:
+		c.Nanos = -rapid.Int64Range(1, 400*day*1e9).Draw(t, "neg")
+		if rapid.Bool().Draw(t, "minus1s") {
+			c.Nanos = -1e9
+		}
+	case 2, 3, 4:
+		c.Nanos = boundarySecs[rapid.IntRange(0, len(boundarySecs)-1).Draw(t, "boundary")] * 1e9
+	case 5:
+		c.Nanos = rapid.Int64Range(0, 100*365*day).Draw(t, "secs100y") * 1e9
+	case 6:
+		c.Nanos = rapid.Int64Range(0, 40*day*1e9).Draw(t, "nanos") // with sub-second part
+	case 7:
+		c.Nanos = rapid.Int64Range(0, 2400).Draw(t, "hours") * 3600 * 1e9
+	default:
+		c.Nanos = rapid.Int64Range(0, 31*day-1).Draw(t, "secs") * 1e9
+	}
+	if c.Valid {
+		c.Dur = render(t, c.Nanos)
+		if c.Nanos >= 0 && c.Nanos%1e9 == 0 && rapid.IntRange(0, 3).Draw(t, "singleunit") == 0 {
+			c.Dur, _ = renderSingleUnit(t, c.Nanos/1e9)
+		}
+		d, err := time.ParseDuration(c.Dur)
+		if err != nil || int64(d) != c.Nanos {
+			t.Fatalf("HARNESS: rendered %q for %d ns but ParseDuration gives %v, %v", c.Dur, c.Nanos, d, err)
+		}
+	} else if _, err := time.ParseDuration(c.Dur); err == nil {
+		t.Fatalf("HARNESS: %q was meant to be unparsable", c.Dur)
+	}
+	rec.Eval()
+	if c.Valid && c.Nanos >= 1e9 {
+		rec.NonTrivial(c.Dur, c.NowUnix, c.NowNanos, c.ZoneSecs, c.Relative)
+	}
+	classify(c)
+	rec.Sample(strings.Split("absolute relative", " ")[map[bool]int{false: 0, true: 1}[c.Relative]], c)
+	rec.ReportSeq(t, "period", c, func() *vk.Violation { return check(c) })
+}
+
 func TestPeriods(t *testing.T) {
 	rec.RunProbes(t, reg)
 	rec.RunRegress(t, reg)
-	rapid.Check(t, func(t *rapid.T) {
-		n := nowGen.Draw(t, "now")
-		c := Case{NowUnix: n[0], NowNanos: n[1], ZoneSecs: int(n[2]), Relative: rapid.Bool().Draw(t, "relative"), Valid: true}
-		if rapid.IntRange(0, 2).Draw(t, "processzone") == 0 {
-			// Asia/Shanghai, US west coast, India (half hour), Nepal (quarter hour), the date line, and a shift of months
-			c.LocalSecs = rapid.SampledFrom([]int{8 * 3600, -8 * 3600, 19800, 20700, 14 * 3600, -12 * 3600, 1, -1, 150 * 86400, -150 * 86400}).Draw(t, "localsecs")
-			rec.Class("process_time_zone_not_utc")
-		}
-		switch rapid.IntRange(0, 11).Draw(t, "durclass") {
-		case 0:
-			c.Valid = false
-			c.Dur = rapid.SampledFrom([]string{"", "1d", "abc", "1h-", "h", "1", "--1s", "1w", "1h 30m", "１s", " 1s", "1.2.3s"}).Draw(t, "bad")
-		case 1:
-			c.Nanos = -rapid.Int64Range(1, 400*day*1e9).Draw(t, "neg")
-			if rapid.Bool().Draw(t, "minus1s") {
-				c.Nanos = -1e9
-			}
-		case 2, 3, 4:
-			c.Nanos = boundarySecs[rapid.IntRange(0, len(boundarySecs)-1).Draw(t, "boundary")] * 1e9
-		case 5:
-			c.Nanos = rapid.Int64Range(0, 100*365*day).Draw(t, "secs100y") * 1e9
-		case 6:
-			c.Nanos = rapid.Int64Range(0, 40*day*1e9).Draw(t, "nanos") // with sub-second part
-		case 7:
-			c.Nanos = rapid.Int64Range(0, 2400).Draw(t, "hours") * 3600 * 1e9
-		default:
-			c.Nanos = rapid.Int64Range(0, 31*day-1).Draw(t, "secs") * 1e9
-		}
-		if c.Valid {
-			c.Dur = render(t, c.Nanos)
-			if c.Nanos >= 0 && c.Nanos%1e9 == 0 && rapid.IntRange(0, 3).Draw(t, "singleunit") == 0 {
-				c.Dur, _ = renderSingleUnit(t, c.Nanos/1e9)
-			}
-			d, err := time.ParseDuration(c.Dur)
-			if err != nil || int64(d) != c.Nanos {
-				t.Fatalf("HARNESS: rendered %q for %d ns but ParseDuration gives %v, %v", c.Dur, c.Nanos, d, err)
-			}
-		} else if _, err := time.ParseDuration(c.Dur); err == nil {
-			t.Fatalf("HARNESS: %q was meant to be unparsable", c.Dur)
-		}
-		rec.Eval()
-		if c.Valid && c.Nanos >= 1e9 {
-			rec.NonTrivial(c.Dur, c.NowUnix, c.NowNanos, c.ZoneSecs, c.Relative)
-		}
-		classify(c)
-		rec.Sample(strings.Split("absolute relative", " ")[map[bool]int{false: 0, true: 1}[c.Relative]], c)
-		rec.ReportSeq(t, "period", c, func() *vk.Violation { return check(c) })
-	})
+	rapid.Check(t, periodsProp)
 }
+
+// FuzzPeriods: the validity-period property driven by the coverage-guided fuzzer (thorough tier).
+func FuzzPeriods(f *testing.F) { f.Fuzz(rapid.MakeFuzz(periodsProp)) }
 
 // TestWholeHours: every whole-hour duration up to 100 days, both forms (thorough: every minute of the first 3 days too).
 func TestWholeHours(t *testing.T) {
